@@ -257,7 +257,7 @@ ThresholdOk(thr, bytes, pn, pd) ==
 
 \* ------------------------------------------------------------------ ret
 InWalk(e, o) == "walk" \in DOMAIN e /\ o \in Rng(e.walk)
-CanStartCollection == {"collect", "new", "newcyc", "register"}
+CanStartCollection == {"collect", "new", "newcyc", "register", "tcollect"}   \* tcollect: collect_cycles() called while the thread-locals are being destroyed (may find the buffer gone)
 
 \* leftover garbage that is not justified by an untraced (pinning) field
 Unjustified(m) ==
